@@ -300,6 +300,7 @@ func genPathD(r *rng.R) []pcmd {
 	n := 2 + r.Intn(4)
 	for i := 0; i < n; i++ {
 		var nx [2]float64
+		old := prevDir
 		for {
 			nx = [2]float64{q4(r, 0, 30), q4(r, 0, 30)}
 			dir := [2]float64{nx[0] - cur[0], nx[1] - cur[1]}
@@ -314,7 +315,7 @@ func genPathD(r *rng.R) []pcmd {
 		case 2:
 			d = append(d, pcmd{c: 'l', a: []float64{nx[0] - cur[0], nx[1] - cur[1]}})
 		case 3:
-			if nx[0] != cur[0] && i > 0 {
+			if nx[0] != cur[0] && i > 0 && old[1] != 0 {
 				// keep prevDir consistent: horizontal
 				nx[1] = cur[1]
 				prevDir = [2]float64{nx[0] - cur[0], 0}
@@ -323,7 +324,7 @@ func genPathD(r *rng.R) []pcmd {
 				d = append(d, pcmd{c: 'L', a: []float64{nx[0], nx[1]}})
 			}
 		case 4:
-			if nx[1] != cur[1] && i > 0 {
+			if nx[1] != cur[1] && i > 0 && old[0] != 0 {
 				nx[0] = cur[0]
 				prevDir = [2]float64{0, nx[1] - cur[1]}
 				d = append(d, pcmd{c: 'V', a: []float64{nx[1]}})
